@@ -96,6 +96,7 @@ func vxH05Step(kind int, withAuth bool) {
 	fid.opened = opened
 	fid.Omode = omode
 	other := k.addFid(conn, 2, k.users.u0, QTDIR)
+	k.ops.qid = Qid{Type: vxU8("qid.type"), Path: 7}
 
 	tc := &Fcall{Type: uint8(kind), Tag: 7, Fid: 1}
 	newfidExists := false
@@ -172,9 +173,27 @@ func vxH05Step(kind int, withAuth bool) {
 				}
 			}
 			vxAssert(ok, "forwarded-arguments-unchanged")
-			vxAssert(c.locks == 0, "no-lock-held-in-implementation")
+			vxAssertE(c.locks == 0, "no-lock-held-in-implementation")
 		}
 		vxAssert(rc.Type == uint8(kind)+1, "forwarded-request-answered-by-implementation")
+		// the effects of the answered request are in place for whatever the client sends next
+		switch kind {
+		case Twalk:
+			nf := conn.fidpool[tc.Newfid]
+			vxAssert(nf != nil, "walked-fid-valid-after-reply")
+			if nf != nil {
+				want := ftype
+				if len(in.Wname) > 0 {
+					want = k.ops.qid.Type // the type of the last element walked to
+				}
+				vxAssert(nf.Type == want, "walked-fid-has-the-type-of-its-object")
+				vxAssert(!nf.opened || tc.Newfid == tc.Fid, "walked-fid-not-open")
+			}
+		case Topen:
+			vxAssert(vxAll(fid.opened, fid.Omode == in.Mode), "fid-open-with-the-requested-mode-after-reply")
+		case Tcreate:
+			vxAssert(vxAll(fid.opened, fid.Omode == in.Mode, fid.Type == k.ops.qid.Type), "fid-designates-the-created-open-file-after-reply")
+		}
 		vxReach("forward")
 	default:
 		vxAssert(nops <= 1, "at-most-one-forward")
